@@ -92,6 +92,8 @@ enum Op {
     TryGet,
     GetWithSize,
     GetWithCapacity,
+    TryGetWithSize,
+    TryGetWithCapacity,
     /// `get()` while the base allocator panics (unwinds out of `get` iff a new arena is needed)
     GetPanics,
     /// `try_get()` while the base allocator refuses
@@ -112,6 +114,8 @@ impl Op {
             Op::TryGet => "try_get".into(),
             Op::GetWithSize => "get_with_size".into(),
             Op::GetWithCapacity => "get_with_capacity".into(),
+            Op::TryGetWithSize => "try_get_with_size".into(),
+            Op::TryGetWithCapacity => "try_get_with_capacity".into(),
             Op::GetPanics => "get_panics".into(),
             Op::TryGetRefused => "try_get_refused".into(),
             Op::Alloc(i) => format!("alloc.{i}"),
@@ -131,6 +135,8 @@ impl Op {
             "try_get" => Op::TryGet,
             "get_with_size" => Op::GetWithSize,
             "get_with_capacity" => Op::GetWithCapacity,
+            "try_get_with_size" => Op::TryGetWithSize,
+            "try_get_with_capacity" => Op::TryGetWithCapacity,
             "get_panics" => Op::GetPanics,
             "try_get_refused" => Op::TryGetRefused,
             "alloc" => Op::Alloc(a),
@@ -149,6 +155,8 @@ fn alphabet() -> Vec<Op> {
         Op::TryGet,
         Op::GetWithSize,
         Op::GetWithCapacity,
+        Op::TryGetWithSize,
+        Op::TryGetWithCapacity,
         Op::GetPanics,
         Op::TryGetRefused,
         Op::Alloc(0),
@@ -233,6 +241,14 @@ fn run_inner(hist: &[Op]) -> Outcome {
             },
             Op::GetWithSize => new_guard = Some(pool.get_with_size(1024)),
             Op::GetWithCapacity => new_guard = Some(pool.get_with_capacity(Layout::from_size_align(300, 8).unwrap())),
+            Op::TryGetWithSize => match pool.try_get_with_size(1024) {
+                Ok(g) => new_guard = Some(g),
+                Err(_) => viol!(i, "try_get_with_size failed although the base allocator refused nothing"),
+            },
+            Op::TryGetWithCapacity => match pool.try_get_with_capacity(Layout::from_size_align(300, 8).unwrap()) {
+                Ok(g) => new_guard = Some(g),
+                Err(_) => viol!(i, "try_get_with_capacity failed although the base allocator refused nothing"),
+            },
             Op::GetPanics => {
                 st(|s| s.mode = Mode::Panic);
                 let before = st(|s| s.panicked);
